@@ -382,8 +382,9 @@ func litestream.(*Compactor).EnforceL0Retention(c, ctx, retention) (err)
   loop 1 invariant forall i int :: {deleted[i]} 0 <= i && i < len(deleted) ==> deleted[i] != nil && deleted[i] == item(itr, i) && deleted[i].MaxTXID <= maxL1TXID && (deleted[i].CreatedAt == 0 || deleted[i].CreatedAt <= threshold)
 
 func litestream.(*DB).EnforceL0RetentionByTime(db, ctx) (err)
-  requires db != nil && db.Replica != nil && db.Replica.Client != nil && distinctItems(db.Replica.Client, 0)
-  requires forall i int, j int :: {replFile(db.Replica.Client, 0, i), replFile(db.Replica.Client, 0, j)} 0 <= i && i < j && j < replN(db.Replica.Client, 0) ==> fmax(replFile(db.Replica.Client, 0, i)) <= fmax(replFile(db.Replica.Client, 0, j))   // L0 listing sorted by TXID
+  requires db != nil && db.Replica != nil && db.Replica.Client != nil
+  assumes distinctItems(db.Replica.Client, 0)     // A-listing: distinct files
+  assumes forall i int, j int :: {replFile(db.Replica.Client, 0, i), replFile(db.Replica.Client, 0, j)} 0 <= i && i < j && j < replN(db.Replica.Client, 0) ==> fmax(replFile(db.Replica.Client, 0, i)) <= fmax(replFile(db.Replica.Client, 0, j))   // L0 listing sorted by TXID
   modifies $heap, $alloc, it_idx
   at litestream.ReplicaClient.DeleteLTXFiles#1 assert [C07.l0-covered] maxL1TXID != 0 && (forall i int :: {deleted[i]} 0 <= i && i < len(deleted) ==> deleted[i] != nil && deleted[i].MaxTXID <= maxL1TXID)
   at litestream.ReplicaClient.DeleteLTXFiles#1 assert [C07.l0-l1-exists] exists k int :: {replFile(db.Replica.Client, 1, k)} 0 <= k && k < replN(db.Replica.Client, 1) && maxL1TXID == fmax(replFile(db.Replica.Client, 1, k))
@@ -842,11 +843,11 @@ func litestream.(*Replica).applyNewLTXFiles(r, ctx, f, afterTXID, pageSize) (txi
   at litestream.(*Replica).applyLTXFile#all set fl_cur = ($result0 == nil ? $arg2.MaxTXID : fl_cur)
   ensures [C16.result-is-applied] txid >= afterTXID && txid < 9223372036854775807 && (err == nil ==> txid == fl_cur)
   ensures [C16.durable] err == nil && txid > afterTXID ==> synced(f)
-  ensures [C16.catch-up] err == nil && itr != nil ==> (forall k int :: {item(itr, k)} 0 <= k && k < it_n[itr] ==> fmax(item(itr, k)) <= txid) || (exists k int :: {item(itr, k)} 0 <= k && k < it_n[itr] && fmin(item(itr, k)) > txid + 1)
+  ensures [C16.catch-up] err == nil && itr != nil ==> (forall k int :: {item(itr, k)} seekIdx(old(r.Client), 0, afterTXID + 1) <= k && k < it_n[itr] ==> fmax(item(itr, k)) <= txid) || (exists k int :: {item(itr, k)} 0 <= k && k < it_n[itr] && fmin(item(itr, k)) > txid + 1)
   loop 0 invariant r == old(r) && f == old(f) && pageSize == old(pageSize) && r.Client == old(r.Client) && itr != nil && itOK(itr) && it_client[itr] == r.Client && it_level[itr] == 0 && wfLevel(r.Client, 0)
   loop 0 invariant fl_cur == currentTXID && afterTXID <= currentTXID && currentTXID < 9223372036854775807
   loop 0 invariant currentTXID > afterTXID ==> synced(f)
-  loop 0 invariant forall k int :: {item(itr, k)} 0 <= k && k < it_idx[itr] ==> fmax(item(itr, k)) <= currentTXID
+  loop 0 invariant forall k int :: {item(itr, k)} seekIdx(r.Client, 0, afterTXID + 1) <= k && k < it_idx[itr] ==> fmax(item(itr, k)) <= currentTXID
 
 // Gap bridging from higher levels obeys the same rule.
 func litestream.(*Replica).fillFollowGap(r, ctx, f, afterTXID, gapMinTXID, pageSize) (txid, err)
@@ -880,4 +881,116 @@ func litestream.(*Replica).follow(r, ctx, outputPath, lastTXID, interval) (err)
   at litestream.WriteTXIDFile#1 reset txf_renamed = false
   at litestream.WriteTXIDFile#1 assert [C16.sidecar-after-apply] $arg0 == outputPath && $arg1 == newTXID && newTXID > lastTXID && fl_cur == newTXID && synced(f)
   loop 0 invariant r == old(r) && r.Client == old(r.Client) && outputPath == old(outputPath) && f != nil && old(lastTXID) <= lastTXID && lastTXID < 9223372036854775807 && pageSize <= 65536
+
+// ---------------------------------------------------------------------------
+// C06: compaction. Ghosts name what Compact asked of the replica.
+ghost c06_hit Bool
+ghost c06_cached Int
+ghost c06_prevMax Int
+ghost c06_start Int
+ghost c06_wrote Int
+ghost c06_werr Int
+
+// Max file of a level: the cached entry, else the maximum over the whole listing; the cache is
+// filled with exactly that maximum (when the listing was complete).
+func litestream.(*Compactor).MaxLTXFileInfo(c, ctx, level) (info, err)
+  requires c != nil && c.client != nil && !c06_hit
+  modifies $alloc, it_idx, c06_hit, c06_cached
+  at litestream.Compactor.CacheGetter#1 assert [C06.cache-key] $arg0 == level
+  at litestream.Compactor.CacheGetter#1 set c06_hit = $result1
+  at litestream.Compactor.CacheGetter#1 set c06_cached = $result0
+  at litestream.ReplicaClient.LTXFiles#1 assert [C06.whole-level] $recv == c.client && $arg1 == level && $arg2 == 0
+  at litestream.Compactor.CacheSetter#1 assert [C06.cache-fill] $arg0 == level && $arg1 != nil && fmax($arg1) == info#1.MaxTXID && it_idx[itr] >= it_n[itr] && (it_err[itr] == nil ==> (forall k int :: {replFile(c.client, level, k)} 0 <= k && k < replN(c.client, level) ==> fmax(replFile(c.client, level, k)) <= fmax($arg1)))
+  ensures [C06.cached-value] err == nil && c06_hit ==> c06_cached != nil && info.MaxTXID == fmax(c06_cached) && info.MinTXID == fmin(c06_cached)
+  ensures [C06.level-max] err == nil && !c06_hit ==> (forall k int :: {replFile(old(c.client), level, k)} 0 <= k && k < replN(old(c.client), level) ==> fmax(replFile(old(c.client), level, k)) <= info.MaxTXID)
+  ensures [C06.level-max-exists] err == nil && !c06_hit && info.MaxTXID > 0 ==> (exists k int :: {replFile(old(c.client), level, k)} 0 <= k && k < replN(old(c.client), level) && fmax(replFile(old(c.client), level, k)) == info.MaxTXID)
+  ensures info.MaxTXID >= 0 && (err == nil ==> info.MaxTXID < 9223372036854775807)
+  ensures (forall i int :: {it_idx[i]} old(allocated(i)) ==> it_idx[i] == old(it_idx[i]))
+  loop 0 invariant c == old(c) && c.client == old(c.client) && !c06_hit && itr != nil && fresh(itr) && itOK(itr) && it_client[itr] == c.client && it_level[itr] == level && wfLevel(c.client, level)
+  loop 0 invariant 0 <= info#1.MaxTXID && info#1.MaxTXID < 9223372036854775807 && (forall k int :: {item(itr, k)} 0 <= k && k < it_idx[itr] ==> fmax(item(itr, k)) <= info#1.MaxTXID)
+  loop 0 invariant info#1.MaxTXID > 0 ==> (exists k int :: {item(itr, k)} 0 <= k && k < it_idx[itr] && fmax(item(itr, k)) == info#1.MaxTXID)
+  loop 0 invariant (forall i int :: {it_idx[i]} old(allocated(i)) ==> it_idx[i] == old(it_idx[i]))
+
+// Compact(dst): inputs are exactly the source-level files listed from (max TXID of dst)+1, one reader per
+// file in listing order; the output is written to dst with the TXID range [min of inputs, max of inputs],
+// which starts after everything dst already holds; the cache entry of dst becomes the written file.
+func litestream.(*Compactor).Compact(c, ctx, dstLevel) (res, err)
+  requires c != nil && c.client != nil && 1 <= dstLevel && dstLevel <= 9 && !c06_hit && c06_wrote == nil
+  modifies $alloc, it_idx, l0_has, file_closed, c06_hit, c06_cached, c06_prevMax, c06_start, c06_wrote, c06_werr, prefix("H_ltx_"), prefix("H_struct_"), prefix("Elem_"), prefix("H_io_"), prefix("H_internal_")
+  at litestream.(*Compactor).MaxLTXFileInfo#1 assert [C06.dst-max] $arg1 == dstLevel
+  at litestream.(*Compactor).MaxLTXFileInfo#1 set c06_prevMax = $result0.MaxTXID
+  at litestream.ReplicaClient.LTXFiles#1 assert [C06.seek] $recv == c.client && $arg1 == dstLevel - 1 && $arg2 == c06_prevMax + 1
+  at litestream.ReplicaClient.LTXFiles#1 set c06_start = seekIdx(c.client, dstLevel - 1, c06_prevMax + 1)
+  at litestream.Compactor.LocalFileOpener#1 assert [C06.input-local] $arg0 == dstLevel - 1 && $arg1 == fmin(item(itr, it_idx[itr] - 1)) && $arg2 == fmax(item(itr, it_idx[itr] - 1)) && len(rdrs) == it_idx[itr] - 1 - c06_start
+  at litestream.ReplicaClient.OpenLTXFile#1 assert [C06.input-remote] $recv == c.client && $arg1 == flevel(item(itr, it_idx[itr] - 1)) && $arg2 == fmin(item(itr, it_idx[itr] - 1)) && $arg3 == fmax(item(itr, it_idx[itr] - 1)) && $arg4 == 0 && $arg5 == 0 && len(rdrs) == it_idx[itr] - 1 - c06_start
+  at internal.NewResumableReader#1 assert [C06.input-resume] $arg2 == flevel(item(itr, it_idx[itr] - 1)) && $arg3 == fmin(item(itr, it_idx[itr] - 1)) && $arg4 == fmax(item(itr, it_idx[itr] - 1)) && $arg6 == f#1
+  at litestream.ReplicaClient.WriteLTXFile#1 assert [C06.range] $recv == c.client && $arg1 == dstLevel && $arg2 == minTXID && $arg3 == maxTXID && len(rdrs) == it_n[itr] - c06_start && len(rdrs) >= 1
+  at litestream.ReplicaClient.WriteLTXFile#1 assert [C06.no-overlap] c06_prevMax < minTXID && minTXID <= maxTXID
+  at litestream.ReplicaClient.WriteLTXFile#1 assert [C06.covers-inputs] (forall k int :: {item(itr, k)} c06_start <= k && k < it_n[itr] ==> minTXID <= fmin(item(itr, k)) && fmax(item(itr, k)) <= maxTXID) && minTXID == fmin(item(itr, c06_start)) && (exists k int :: {item(itr, k)} c06_start <= k && k < it_n[itr] && fmax(item(itr, k)) == maxTXID)
+  at litestream.ReplicaClient.WriteLTXFile#1 set c06_wrote = $result0
+  at litestream.ReplicaClient.WriteLTXFile#1 set c06_werr = $result1
+  at litestream.Compactor.CacheSetter#1 assert [C06.cache-update] $arg0 == dstLevel && $arg1 == c06_wrote && c06_werr == nil
+  ensures [C06.result] err == nil ==> res == c06_wrote && res != nil && c06_werr == nil
+  ensures [C06.write-error] c06_werr != nil ==> err != nil && res == nil
+  loop 0 invariant c == old(c) && c.client == old(c.client) && dstLevel == old(dstLevel) && itr != nil && itOK(itr) && it_client[itr] == c.client && it_level[itr] == dstLevel - 1 && wfLevel(c.client, dstLevel - 1) && c06_wrote == nil
+  loop 0 invariant c06_start == seekIdx(c.client, dstLevel - 1, c06_prevMax + 1) && 0 <= c06_prevMax && c06_start <= it_idx[itr] && len(rdrs) == it_idx[itr] - c06_start && (cap(rdrs) == 0 || fresh(arr(rdrs)))
+  loop 0 invariant (forall k int :: {replFile(c.client, dstLevel - 1, k)} c06_start <= k && k < replN(c.client, dstLevel - 1) ==> fmin(replFile(c.client, dstLevel - 1, k)) >= c06_prevMax + 1)
+  loop 0 invariant it_idx[itr] == c06_start ==> minTXID == 0 && maxTXID == 0
+  loop 0 invariant it_idx[itr] > c06_start ==> minTXID == fmin(item(itr, c06_start)) && minTXID <= maxTXID && (forall k int :: {item(itr, k)} c06_start <= k && k < it_idx[itr] ==> minTXID <= fmin(item(itr, k)) && fmax(item(itr, k)) <= maxTXID) && (exists k int :: {item(itr, k)} c06_start <= k && k < it_idx[itr] && fmax(item(itr, k)) == maxTXID)
+
+// DB.MaxLTXFileInfo: the per-level max-file cache. A miss is filled with the maximum of the level listing
+// inside the same critical section as the lookup (one Lock, held across the listing, one Unlock at exit),
+// so a concurrent CacheSetter cannot be overwritten by a stale listing.
+ghost mx_locks Int
+ghost mx_unlocks Int
+ghost mx_listed Bool
+func litestream.(*DB).MaxLTXFileInfo(db, ctx, level) (info, err)
+  requires db != nil && db.Replica != nil && mx_locks == 0 && mx_unlocks == 0 && !mx_listed && db.maxLTXFileInfos.m != nil
+  modifies $alloc, it_idx, mx_locks, mx_unlocks, mx_listed, key("MapDom_map_int_P_ltx_FileInfo"), key("MapVal_map_int_P_ltx_FileInfo"), all(ltx.FileInfo)
+  at sync.(*Mutex).Lock#all set mx_locks = mx_locks + 1
+  at sync.(*Mutex).Unlock#all set mx_unlocks = mx_unlocks + 1
+  at litestream.(*Replica).MaxLTXFileInfo#1 assert [C06.cache-atomic] mx_locks == 1 && mx_unlocks == 0 && $recv == db.Replica && $arg1 == level
+  at litestream.(*Replica).MaxLTXFileInfo#1 set mx_listed = ($result1 == nil)
+  ensures [C06.cache-atomic-exit] mx_locks == 1 && mx_unlocks == 1
+  ensures [C06.cache-hit] err == nil && old(has(db.maxLTXFileInfos.m, level)) ==> !mx_listed && info.MaxTXID == old(fmax(db.maxLTXFileInfos.m[level]))
+  ensures [C06.cache-fill-db] err == nil && mx_listed ==> has(db.maxLTXFileInfos.m, level) && db.maxLTXFileInfos.m[level] != nil && fmax(db.maxLTXFileInfos.m[level]) == info.MaxTXID && (forall k int :: {replFile(old(db.Replica.Client), level, k)} 0 <= k && k < replN(old(db.Replica.Client), level) ==> fmax(replFile(old(db.Replica.Client), level, k)) <= info.MaxTXID)
+
+ghost c06_dstMax Int
+ghost c06_pos Int
+ghost c06_compacted Bool
+
+// DB.Compact: the compactor's result is handed on; level-0 retention runs only after a successful L1 compaction.
+func litestream.(*DB).Compact(db, ctx, dstLevel) (info, err)
+  requires db != nil && db.compactor != nil && db.compactor.client != nil && db.Replica != nil && db.Replica.Client != nil && 1 <= dstLevel && dstLevel <= 9
+  modifies $heap, $alloc, it_idx, l0_has, file_closed, c06_hit, c06_cached, c06_prevMax, c06_start, c06_wrote, c06_werr
+  at litestream.(*Compactor).Compact#1 reset c06_hit = false
+  at litestream.(*Compactor).Compact#1 reset c06_wrote = nil
+  at litestream.(*Compactor).Compact#1 assert [C06.compactor-args] $recv == db.compactor && $arg1 == dstLevel
+  at litestream.(*DB).EnforceL0RetentionByTime#1 assert [C06.l0-retention-after-l1] dstLevel == 1 && c06_wrote != nil && c06_werr == nil
+  ensures [C06.result] err == nil ==> info != nil && info == c06_wrote
+
+// Store.CompactDB: the scheduling guard. A snapshot is taken only when the position moved past the newest
+// snapshot; every other level is compacted into exactly the level asked for.
+func litestream.(*Store).CompactDB(s, ctx, db, lvl) (info, err)
+  requires s != nil && db != nil && lvl != nil && db.Replica != nil && db.Replica.Client != nil && db.compactor != nil && db.compactor.client != nil && db.maxLTXFileInfos.m != nil && 1 <= lvl.Level && lvl.Level <= 9
+  modifies $heap, $alloc, it_idx, l0_has, file_closed, pos_verifyErr, mx_locks, mx_unlocks, mx_listed, c06_hit, c06_cached, c06_prevMax, c06_start, c06_wrote, c06_werr, c06_dstMax, c06_pos
+  at litestream.(*DB).MaxLTXFileInfo#all reset mx_locks = 0
+  at litestream.(*DB).MaxLTXFileInfo#all reset mx_unlocks = 0
+  at litestream.(*DB).MaxLTXFileInfo#all reset mx_listed = false
+  at litestream.(*DB).MaxLTXFileInfo#1 assert [C06.dst-info] $recv == db && $arg1 == lvl.Level
+  at litestream.(*DB).MaxLTXFileInfo#1 set c06_dstMax = $result0.MaxTXID
+  at litestream.(*DB).Pos#1 reset pos_verifyErr = nil
+  at litestream.(*DB).Pos#1 set c06_pos = $result0.TXID
+  at litestream.(*DB).Snapshot#1 assert [C06.snapshot-guard] lvl.Level == 9 && (c06_dstMax == 0 || c06_dstMax < c06_pos)
+  at litestream.(*DB).Compact#1 assert [C06.compact-level] $recv == db && $arg1 == lvl.Level && lvl.Level != 9
+
+ghost c06_snapPos Int
+// DB.Snapshot: the snapshot file covers TXIDs 1..position, at the snapshot level, from the reader that
+// was opened for that position.
+func litestream.(*DB).Snapshot(db, ctx) (info, err)
+  requires db != nil && db.Replica != nil && db.Replica.Client != nil
+  modifies $heap, $alloc, it_idx, l0_has, file_closed, pos_verifyErr, c06_snapPos
+  at litestream.(*DB).SnapshotReader#1 set c06_snapPos = $result0.TXID
+  at litestream.ReplicaClient.WriteLTXFile#1 assert [C06.snapshot-range] $arg1 == 9 && $arg2 == 1 && $arg3 == c06_snapPos && $arg4 == r
+  ensures [C06.snapshot-result] err == nil ==> info != nil
 */
